@@ -42,7 +42,7 @@ Still not behaviour-modelled (differential testing only, see harness/c14.py): DH
 extension headers (D48), ICMPv6 error/NDP bodies (D47), EAP request/response bodies (D49), GRE routing, MPTCP options.
 -/
 namespace Pox.C14
-open Pox Pox.Layout Pox.Checksum Pox.Packet
+open Pox Pox.PktLayout Pox.Checksum Pox.Packet
 
 deriving instance DecidableEq for Except
 
